@@ -99,6 +99,14 @@ CHECKS = {
              "shapes beyond 2^31 and 2^32; hook delays inside the index queue's load/CAS window.",
         note="D3 (32-bit chunk arithmetic) was found here and fixed; shape types narrower than int do not compile and are not judged.",
         ref="DESIGN.md section 2, C11"),
+    "C10": dict(
+        technique="runtime monitoring: every callable records pool/worker/task identity/OS thread in every phase and is compared with the "
+                  "placement denoted by the run-time generated pipeline; submitter-inlining marker; TSan/ASan as extra oracles",
+        text="Exploration: random pool layouts (1-4 pools, mixed policies, unaligned offsets) and thousands of random multi-hop pipelines "
+             "per case with hints, priorities, yields and real suspensions woken from other pools; static+hint+normal priority tasks must "
+             "stay on the hinted worker in every phase, std_thread_scheduler work must not be a pika task.",
+        note="Value channel only; the machine has one socket (16 PUs), layouts vary sizes/offsets/policies, not NUMA.",
+        ref="DESIGN.md section 2, C10"),
 }
 
 NOT_YET = "not claimed yet: harness under construction in this session (see DESIGN.md section 2)"
